@@ -561,6 +561,14 @@ class System:
         # if component/rail name changes, check that it is unique
         if name != comp._params["name"]:
             self._chk_name(comp._params["name"], rail)
+        elif rail != "" and rail != self._g.attrs["rails"][name]:
+            if rail == name:
+                raise ValueError("Component name and rail name cannot be the same!")
+            if (
+                rail in self._g.attrs["nodes"].keys()
+                or rail in self._g.attrs["rails"].values()
+            ):
+                raise ValueError('Rail name "{}" is already used!'.format(rail))
 
         eidx = self._get_index(name)
         # source can only be changed to source
